@@ -26,6 +26,9 @@ type MintDB interface {
 	GetMintQuote(string) (MintQuote, error)
 	GetMintQuoteByPaymentHash(string) (MintQuote, error)
 	UpdateMintQuoteState(quoteId string, state nut04.State) error
+	// CompareAndSetMintQuoteState sets the state of the quote to newState only if
+	// it is currently in state current. It returns true if the quote was updated.
+	CompareAndSetMintQuoteState(quoteId string, current, newState nut04.State) (bool, error)
 
 	SaveMeltQuote(MeltQuote) error
 	GetMeltQuote(string) (MeltQuote, error)
